@@ -20,7 +20,7 @@ LEVEL = "model_checking"
 MANIFEST = dict(
     text="SqlExpr.tla (statement family): every criterion of depth <=2 over the ORM evaluator's operators (comparisons over + - * %, "
          "true division, IN / NOT IN incl. empty lists, NULL members and 2-tuples, IS [NOT] NULL, AND/OR/NOT, ||, startswith/endswith) "
-         "as DELETE, and a grid of UPDATEs (one column, two columns that read each other, string column, NULL) - 3.9k statements quick; "
+         "as DELETE, and a grid of UPDATEs (one column, two columns that read each other, string column, NULL) - 2.5k statements quick / 10.8k thorough; "
          "TLC computes the resulting table on 36 rows with NULLs and negatives and checks the frame/Kleene theorems. Each criterion and "
          "SET expression is run through orm.evaluator on the in-session objects, and the statements through Session.execute with "
          "synchronize_session evaluate / fetch / auto: afterwards every in-session object must equal its database row or be gone, or "
